@@ -683,6 +683,62 @@ class Shim:
         def d(name):
             return lambda *a, **k: getattr(H.fs, name)(*a, **k)
 
+        def os_open(path, flags, mode=0o777, *a, **k):
+            F = H.fs
+            p = FS.p(path)
+            acc = flags & (_os.O_WRONLY | _os.O_RDWR)
+            if flags & _os.O_CREAT:
+                F.tick("create" if not F.b.isfile(p) else "open-w", p)
+                if F.b.isdir(p):
+                    raise IsADirectoryError(errno.EISDIR, "Is a directory", p)
+                if F.b.isfile(p):
+                    if flags & _os.O_EXCL:
+                        raise FileExistsError(errno.EEXIST, "File exists", p)
+                    if flags & _os.O_TRUNC:
+                        F.b.write(p, b"")
+                else:
+                    F._need_parent(p)
+                    F.b.create(p, b"")
+                f = FakeFile.__new__(FakeFile)
+                f._fs, f.name, f.mode, f._text = F, p, "r+b" if acc else "rb", False
+                f._pending, f._pos, f._writable, f._append, f._closed, f._orphan = [], 0, bool(acc), bool(flags & _os.O_APPEND), False, False
+                F.handles.append(f)
+            else:
+                f = FakeFile(F, p, ("r+b" if acc else "rb"))
+                if flags & _os.O_TRUNC and acc:
+                    f.truncate(0)
+                f._append = bool(flags & _os.O_APPEND)
+            if not hasattr(F, "fds"):
+                F.fds = {}
+            fd = 100 + len(F.fds)
+            F.fds[fd] = f
+            return fd
+
+        def os_close(fd):
+            f = getattr(H.fs, "fds", {}).get(fd)
+            if f is None:
+                raise OSError(errno.EBADF, "Bad file descriptor")
+            f.close()
+
+        def os_write(fd, data):
+            f = H.fs.fds[fd]
+            n = f.write(data)
+            f.flush()
+            return n
+
+        def os_read(fd, n):
+            return H.fs.fds[fd].read(n)
+
+        def os_fsync(fd):
+            f = getattr(H.fs, "fds", {}).get(fd)
+            if f is not None:
+                f.flush()
+
+        def os_fdopen(fd, mode="r", *a, **k):
+            f = H.fs.fds[fd]
+            f._text = "b" not in mode
+            return f
+
         class EnvProxy:
             def __getitem__(self, k):
                 return H.fs.env[k]
@@ -710,7 +766,11 @@ class Shim:
             makedirs=d("makedirs"), remove=d("remove"), unlink=d("remove"), rename=d("rename"),
             replace=d("rename"), rmdir=d("rmdir"), removedirs=d("removedirs"), listdir=d("listdir"), stat=_stat_fn, chmod=d("chmod"), umask=lambda m: 0o22,
             getenv=lambda k, dflt=None: H.fs.env.get(k, dflt), walk=_walk, getcwd=lambda: "/", environ=EnvProxy(),
-            getpid=_os.getpid, error=OSError, mkdir=lambda p, mode=0o777: H.fs.makedirs(p, mode))
+            getpid=_os.getpid, error=OSError, mkdir=lambda p, mode=0o777: H.fs.makedirs(p, mode),
+            open=os_open, close=os_close, write=os_write, read=os_read, fsync=os_fsync, fdopen=os_fdopen,
+            O_RDONLY=_os.O_RDONLY, O_WRONLY=_os.O_WRONLY, O_RDWR=_os.O_RDWR, O_CREAT=_os.O_CREAT,
+            O_EXCL=_os.O_EXCL, O_TRUNC=_os.O_TRUNC, O_APPEND=_os.O_APPEND, utime=lambda *a, **k: None,
+            access=lambda p, m: H.fs.exists(p), R_OK=4, W_OK=2, X_OK=1, F_OK=0, name="posix", devnull="/dev/null")
         def copyfile(src, dst, *a, **k):
             F = H.fs
             fsrc = FakeFile(F, src, "rb")
